@@ -49,3 +49,32 @@ impl Write for SyncSink {
         Ok(())
     }
 }
+
+/// A shared sink that accepts at most `max` bytes per `write` call (a legitimate `Write`: callers
+/// that need everything written use `write_all`). What a pipe, a socket or a BGZF writer at a block
+/// boundary does.
+#[derive(Clone)]
+pub struct ShortSink {
+    pub inner: SharedSink,
+    pub max: usize,
+}
+
+impl ShortSink {
+    pub fn new(max: usize) -> Self {
+        ShortSink { inner: SharedSink::new(), max: max.max(1) }
+    }
+    pub fn bytes(&self) -> Vec<u8> {
+        self.inner.bytes()
+    }
+}
+
+impl Write for ShortSink {
+    fn write(&mut self, buf: &[u8]) -> io::Result<usize> {
+        let n = buf.len().min(self.max);
+        self.inner.0.borrow_mut().extend_from_slice(&buf[..n]);
+        Ok(n)
+    }
+    fn flush(&mut self) -> io::Result<()> {
+        Ok(())
+    }
+}
